@@ -1078,9 +1078,9 @@ fn get_quote_trait_params<'a>(input: &DataType, ctx: &'a ImplContext) -> QuoteTr
         inner_attr: ctx.struct_attr.inner_attribute.as_ref(), 
         dst: ctx.dst_ty, 
         src: ctx.src_ty, 
-        these_gens: input.get_generics().to_token_stream(),
+        these_gens: input.get_generics().split_for_impl().1.to_token_stream(),
         those_gens: ctx.struct_attr.ty.generics.to_token_stream(),
-        impl_gens: impl_gens.to_token_stream(), 
+        impl_gens: impl_gens.split_for_impl().0.to_token_stream(), 
         where_clause: input.get_attrs().where_attr(&ctx.struct_attr.ty).map(|x| {
             let where_clause = &x.where_clause;
             quote!(where #where_clause)
